@@ -414,6 +414,13 @@ def evaluate(prop, cases, quirks):
         flat += c.lines
     timeout = getattr(prop, "CASE_TIMEOUT", 30)
     impl = run_impl(flat, timeout) if flat else []
+    # a per-case timeout may be machine load rather than a hang: re-run each timed-out line
+    # alone with a fourfold limit before believing it
+    for i, r in enumerate(impl):
+        if r == "abort:timeout":
+            again = run_impl([flat[i]], timeout * 4)
+            if again:
+                impl[i] = again[0]
     uses_model = getattr(prop, "DRIVER", None) is not None
     model = run_model(prop.DRIVER, flat, quirks) if (flat and uses_model) else [None] * len(flat)
     if len(impl) != len(flat) or len(model) != len(flat):
